@@ -120,6 +120,18 @@ def run(ctx):
             plan += [("cmd", c) for c in rng.choice([["ZoomInAll"], ["ZoomIn", "ZoomIn"], ["ZoomIn", "ZoomIn", "ZoomIn"], ["MoveStart", "ZoomInAll"]])]
             for _ in range(n_cmds):
                 plan.append(("cmd", rng.choice(["MoveNext", "MoveNext", "MoveNext", "MoveNext", "MovePrevious", "MoveLastLocation", "ZoomIn", "MoveStart", "ReadCurrent", "SetPlacemarker1", "MoveTo1"])))
+        if w % 4 == 1:
+            # character-offset walk: the position carries a non-zero offset (set_navigation_node on a leaf), then commands whose rules copy the offset
+            # into their answer -- moves to place markers that were never set, undo, moves that fail at the border
+            n_expr = 0
+            for _ in range(2):
+                t = rng.choice(corpus) if rng.random() < 0.5 else mml.math(mml.gen_expr(rng, rng.randrange(1, 4)))
+                plan.append(("mathml", mml.to_xml(t)))
+                for _ in range(n_cmds // 6):
+                    plan.append(("setnode", 2.0))
+                    for _ in range(rng.randrange(1, 4)):
+                        plan.append(("cmd", rng.choice(["MoveTo3", "MoveTo7", "MoveTo0", "MoveTo9", "MoveLastLocation", "MoveNext", "MovePrevious", "ZoomOut", "ZoomIn", "MoveStart", "MoveEnd", "MoveLineStart",
+                                                        "ReadCurrent", "WhereAmI", "SetPlacemarker4", "MoveTo4", "MoveColumnStart", "MoveCellNext", "ZoomOutAll", "ReadNext", "DescribeCurrent"])))
         for k in range(n_expr):
             t = rng.choice(corpus) if rng.random() < 0.5 else mml.math(mml.gen_expr(rng, rng.randrange(1, 4)))
             plan.append(("mathml", mml.to_xml(t)))
@@ -170,7 +182,10 @@ def run(ctx):
             elif kind == "key":
                 req = {"op": "key", "k": arg[0], "shift": arg[1], "ctrl": arg[2]}
             else:
-                if arg < 0.75 and ids:
+                if arg == 2.0 and ids:
+                    i = rng.choice([x for x in ids if leaf.get(x)] or ids)
+                    off = rng.choice([1, 1, 2])
+                elif arg < 0.75 and ids:
                     i = rng.choice(ids)
                     off = 0 if rng.random() < 0.7 else rng.randrange(0, 3)
                 else:
